@@ -34,15 +34,39 @@ Theorem C06_frequired_is_K6R : forall (omit: bool) (f: field) (ws: list bool),
 Proof. exact frequired_is_K6R_thm. Qed.
 Print Assumptions C06_frequired_is_K6R.
 
+(* a field declared as a bare type variable, in the specialisation that binds the variable to f_ty f (since /repo
+   4da7e9e: `gv: T` of G[Optional[int]] is nullable, so omit_none drops its None and the schema does not require it) *)
+Theorem C06_fnullable_typevar_is_K20 : forall (f: field) (ws: list bool),
+  is_field_nullable (wrap ws (FCore (core_of_tv (Some (f_ty f))))) (f_dnone f) = fnullable f.
+Proof. exact fnullable_typevar_is_K20_thm. Qed.
+Print Assumptions C06_fnullable_typevar_is_K20.
+
+Theorem C06_frequired_typevar_is_K6R : forall (omit: bool) (f: field) (ws: list bool),
+  schema_requires (KBool (f_has_default f)) (KBool omit)
+                  (KBool (is_field_nullable (wrap ws (FCore (core_of_tv (Some (f_ty f))))) (f_dnone f)))
+  = Ok (KBool (frequired omit f)).
+Proof. exact frequired_typevar_is_K6R_thm. Qed.
+Print Assumptions C06_frequired_typevar_is_K6R.
+
+Theorem C06_unbound_typevar_nullable : forall (ws: list bool) d,
+  is_field_nullable (wrap ws (FCore (core_of_tv None))) d = true.
+Proof. exact unbound_typevar_nullable_thm. Qed.
+Print Assumptions C06_unbound_typevar_nullable.
+
 (* non-vacuity: Annotated[Final[Optional[int]]] without default under omit_none is not required;
    Literal[1, None] = None is nullable through its default *)
 Example C06_required_nonvacuous :
-  frequired true (mkF "x" "x" (TUnion [TInt; TNone]) false true None false) = false /\
-  frequired false (mkF "x" "x" (TUnion [TInt; TNone]) false true None false) = true /\
+  frequired true (mkF "x" "x" (TUnion [TInt; TNone]) false true None false None) = false /\
+  frequired false (mkF "x" "x" (TUnion [TInt; TNone]) false true None false None) = true /\
   is_field_nullable (wrap [true; false] (FCore (core_of_ty (TUnion [TInt; TNone])))) false = true /\
-  fnullable (mkF "w" "w" (TLit [JInt 1; JNull]) true true None true) = true /\
-  fnullable (mkF "w" "w" (TLit [JInt 1; JNull]) false true None false) = false /\
+  fnullable (mkF "w" "w" (TLit [JInt 1; JNull]) true true None true None) = true /\
+  fnullable (mkF "w" "w" (TLit [JInt 1; JNull]) false true None false None) = false /\
   (* Union[int, None, str] (three members): nullable since /repo 906a805, hence not required under omit_none *)
-  frequired true (mkF "u" "u" (TUnion [TInt; TNone; TStr]) false true None false) = false /\
-  is_field_nullable (FCore (core_of_ty (TUnion [TInt; TNone; TStr]))) false = true.
+  frequired true (mkF "u" "u" (TUnion [TInt; TNone; TStr]) false true None false None) = false /\
+  is_field_nullable (FCore (core_of_ty (TUnion [TInt; TNone; TStr]))) false = true /\
+  (* x: T in G[Optional[int]] / G[int] / G[None] / G[Union[str, None, int]] (agreement examples of fix 4da7e9e) *)
+  is_field_nullable (FCore (core_of_tv (Some (TUnion [TInt; TNone])))) false = true /\
+  is_field_nullable (FCore (core_of_tv (Some TInt))) false = false /\
+  is_field_nullable (FCore (core_of_tv (Some TNone))) false = true /\
+  is_field_nullable (FAnnotated (FCore (core_of_tv (Some (TUnion [TStr; TNone; TInt]))))) false = true.
 Proof. repeat split; reflexivity. Qed.
